@@ -25,7 +25,8 @@ RULE = ('Single-update cases on a real broker with a stub data handler whose quo
         " Round-4/5 reach: the broker's fee_model attribute replaced before the fills; a third of the cases pre-load positions the orders add to, reduce, close or cross through (cash compared as a delta); a third route the orders through ExecutionHandler + MarketOrderExecutionAlgorithm at the update time."
         " Round-10 reach: update and submission times written in Berlin / Azores time (wall clock inside exchange hours in both zones); accounts in USD, GBP or EUR."
         " Round-11 reach: update times carrying 1 or 789 nanoseconds."
-        " Round-12 reach: spreads of 3e-6; `after_refusal` - an update refuses its first order (asset without quote, ValueError caught) and whatever fills then or at the next update is still priced at that update's quote.")
+        " Round-12 reach: spreads of 3e-6; `after_refusal` - an update refuses its first order (asset without quote, ValueError caught) and whatever fills then or at the next update is still priced at that update's quote."
+        " Round-13 reach: `reentry` - a position opened, held over an update, closed and opened again at four different quotes, the fee model's rates re-assigned before the last fill.")
 ASSUMPTIONS = [
     'the stub data handler stands in for any DataHandler (the shipped one returns bid == ask)',
     'update instants at least one minute inside exchange hours (boundaries are C04\'s subject)',
@@ -234,9 +235,56 @@ def run_after_refusal(case):
     return len(log)
 
 
+def run_reentry(case):
+    """A position opened, held over an update, closed out and opened again later - with a fee schedule revised in
+    between (the model's public rates re-assigned): every fill is priced at the quote of its own update time and
+    charged the rates in force at that time."""
+    q = load()
+    t0 = cal.ts6(case['t_submit'])
+    o = case['orders'][0]
+    a, qty, bid, ask = o['asset'], o['qty'], o['bid'], o['ask']
+    ts = [cal.ts6(case['t_update']) + pd.Timedelta(minutes=k) for k in range(4)]
+    factor = [1.0, 1.09, 0.93, 1.21]
+    table = {(t_, a): (bid * f_, ask * f_) for t_, f_ in zip(ts, factor)}
+    dh = TimedDH(table, {a: (bid * 0.61, ask * 0.61)})
+    fee = case['fee'] if isinstance(case['fee'], list) else None
+    model = q.PercentFeeModel(commission_pct=fee[0], tax_pct=fee[1]) if fee else kit.fee_model(case['fee'])
+    b = q.SimulatedBroker(t0, q.SimulatedExchange(t0), dh, initial_funds=0.0, fee_model=model)
+    b.create_portfolio('p')
+    log = []
+    kit.tap(b.portfolios['p'], log, 'p')
+    rate = kit.fee_rate(case['fee'])
+    plan = [(ts[0], qty), (ts[1], None), (ts[2], -qty), (ts[3], qty)]         # open, hold, close, open again
+    for k, (t_, n_) in enumerate(plan):
+        if k == 3 and fee:
+            # the fee schedule is revised before the position is opened again
+            model.commission_pct, model.tax_pct = fee[0] * 0.5 + 0.001, fee[1] * 0.25 + 0.002
+            rate = F(model.commission_pct) + F(model.tax_pct)
+        if n_ is not None:
+            b.submit_order('p', q.Order(b.current_dt, a, n_))
+        n0 = len(log)
+        b.update(t_)
+        if len(log) - n0 != (0 if n_ is None else 1):
+            raise Inconclusive('expected %d fill(s) at %s' % (0 if n_ is None else 1, t_))
+        for _, txn in log[n0:]:
+            bq, aq = table[(t_, a)]
+            want = aq if txn.quantity > 0 else bq
+            if txn.dt != t_ or txn.price != want:
+                raise Violation('fill %d of a position opened, held, closed and opened again: %s x %r stamped %s priced %r; the '
+                                'quote at the update time %s is bid %r / ask %r' % (k, a, txn.quantity, txn.dt, txn.price, t_, bq, aq))
+            x = F(want) * txn.quantity
+            eps = F(1, 10 ** 12) * max(1, abs(x))
+            exp = [float(rate * abs(math.floor(x + F(1, 2) + e_))) for e_ in (-eps, eps)]
+            if not any(abs(txn.commission - e_) <= 1e-9 * max(1.0, e_) for e_ in exp):
+                raise Violation('fill %d of a position opened, held, closed and opened again is charged %r; the rates in force '
+                                '(%r) x |round(%r x %r)| give %r' % (k, txn.commission, float(rate), want, txn.quantity, exp[0]))
+
+
 def run_case(case):
     if case.get('after_refusal'):
         run_after_refusal(case)
+    if case.get('reentry'):
+        run_reentry(case)
     fee_obj = kit.fee_model(case['fee'])          # one fee-model object serves both brokers
     if case.get('retune') and isinstance(case['fee'], list):
         # a live fee model re-tuned through its public rate attributes (commission first, or tax first); with
@@ -276,6 +324,8 @@ def run_case(case):
     cls.append('orders_%d' % len(case['orders']))
     if case.get('after_refusal'):
         cls.append('updates_after_a_refused_unquoted_order')
+    if case.get('reentry'):
+        cls.append('position_closed_and_opened_again_fee_schedule_revised')
     if case.get('ns'):
         cls.append('update_time_with_nanoseconds')
     if case.get('tz'):
@@ -359,7 +409,7 @@ def cases(draw):
         zones.append('Europe/Berlin')            # UTC+1 on these dates
     if (h, mi) >= (15, 31):
         zones.append('Atlantic/Azores')          # UTC-1 on these dates
-    return {'after_refusal': draw(st.sampled_from([False, False, False, True])), 'tz': draw(st.sampled_from(zones)), 'ns': draw(st.sampled_from([0, 0, 0, 789, 1])), 'currency': draw(st.sampled_from([None, None, 'USD', 'GBP', 'EUR'])),
+    return {'after_refusal': draw(st.sampled_from([False, False, False, True])), 'reentry': draw(st.sampled_from([False, False, False, True])), 'tz': draw(st.sampled_from(zones)), 'ns': draw(st.sampled_from([0, 0, 0, 789, 1])), 'currency': draw(st.sampled_from([None, None, 'USD', 'GBP', 'EUR'])),
             'second_round': draw(st.sampled_from([False, False, True])), 'retune': draw(st.sampled_from([0, 0, 1, 2, 3])), 'prior': prior, 'via_exec': draw(st.sampled_from([False, False, True])), 'swap_fee': swap, 't_submit': [t0.year, t0.month, t0.day, t0.hour, t0.minute, t0.second],
             't_update': [t1.year, t1.month, t1.day, t1.hour, t1.minute, t1.second],
             'orders': orders, 'fee': fee}
